@@ -31,6 +31,10 @@ inductive SetArg
   | unencodableStr       -- a `str` with a lone surrogate
   deriving Repr, Inhabited
 
+/-- ASCII octets of the lower-case hex rendering (`bytes.hex()`). -/
+def hexAscii (b : Bytes) : Bytes :=
+  b.flatMap fun x => [UInt8.ofNat (hexDigit (x.toNat / 16)).toNat, UInt8.ofNat (hexDigit (x.toNat % 16)).toNat]
+
 def hasDotOrColon (t : Bytes) : Bool := t.any (fun c => c == 46 || c == 58)
 
 /-- `AvpAddress.value = text`. -/
@@ -64,7 +68,8 @@ def reSetArg (v : Value) : SetArg :=
   match v with
   | .addr 1 raw => .addrText [46] (some raw) none
   | .addr 2 raw => .addrText [58] none (some raw)
-  | .addr _ raw => .addrText raw none none
+  | .addr 8 raw => .addrText raw none none
+  | .addr _ raw => .addrText (hexAscii raw) none none   -- unknown family: the getter returned a hex string
   | v => .val v
 
 /-- `Avp.new(code, vendor, value, is_mandatory, is_private)`.
